@@ -26,7 +26,7 @@ COMMON_ASSUMPTIONS = [
     "A-PY: python semantics assumed by the VC generator (DESIGN.md 2.4): left-to-right evaluation, sum() = left fold of +, operator dispatch with reflected methods, comprehensions",
     "A-LOG: logger calls and label text (other than emptiness) are not interpreted",
     "A-SORTED: every hourly index is strictly increasing (positional alignment of equal index sets)",
-    "input invariants as preconditions: quantity inputs are non-negative except data_stored (what validation enforces), list-valued links are duplicate free, every device has non-zero lifespan / usage fraction",
+    "input invariants as preconditions: quantity inputs are non-negative except data_stored (what validation enforces), every device has non-zero lifespan / usage fraction; user lists (uj_steps, jobs of a step, devices) MAY repeat an element and are folded positionally; the set-derived look-ups the rules iterate (server.jobs, network.jobs, system.servers ...) list each object once: proved by the look-up jobs (C02 evidence) from the reverse index modeling_obj_containers, which is assumed exact and duplicate free (its maintenance is C16, bounded tier)",
     "consistent-state invariants of calculated attributes read by an update rule (schema kind, dimension, fixed unit, index relations) are assumed at the read and established by the attribute's own update contract",
 ]
 
